@@ -180,11 +180,15 @@ fn one(cs: &mut Cases, label: &str, ir: &Value, cfg: &Cfg, cli: &Result<PathBuf,
     std::fs::create_dir_all(&root).unwrap();
     let ir_path = root.join("ir.json");
     std::fs::write(&ir_path, serde_json::to_vec(ir).unwrap()).unwrap();
+    // the temporary directory of the generating processes lies inside the case's root, so that whatever they leave
+    // there is seen as well
+    let tmp = root.join("tmp");
+    std::fs::create_dir_all(&tmp).unwrap();
     let me = std::env::current_exe().unwrap();
     let mut trees: Vec<(String, Result<BTreeMap<String, Vec<u8>>, String>)> = vec![];
     for run in ["lib1", "lib2", "lib3", "lib4"] {
         let out = root.join(run);
-        let o = Command::new(&me).arg("gen").arg(&ir_path).arg(&out).args(cfg.lib_args(run == "lib3", run == "lib4")).current_dir(&root).output();
+        let o = Command::new(&me).arg("gen").arg(&ir_path).arg(&out).args(cfg.lib_args(run == "lib3", run == "lib4")).current_dir(&root).env("TMPDIR", &tmp).output();
         trees.push((run.to_string(), match o {
             Ok(o) if o.status.success() => {
                 let mut t = BTreeMap::new();
@@ -197,7 +201,7 @@ fn one(cs: &mut Cases, label: &str, ir: &Value, cfg: &Cfg, cli: &Result<PathBuf,
     }
     if let Ok(cli) = cli {
         let out = root.join("cli");
-        let o = Command::new(cli).arg("generate").args(cfg.cli_args()).arg(&ir_path).arg(&out).current_dir(&root).output();
+        let o = Command::new(cli).arg("generate").args(cfg.cli_args()).arg(&ir_path).arg(&out).current_dir(&root).env("TMPDIR", &tmp).output();
         trees.push(("cli".to_string(), match o {
             Ok(o) if o.status.success() => {
                 let mut t = BTreeMap::new();
@@ -220,6 +224,12 @@ fn one(cs: &mut Cases, label: &str, ir: &Value, cfg: &Cfg, cli: &Result<PathBuf,
             let mut paths: Vec<String> = t.keys().cloned().collect();
             paths.sort();
             cs.push(label, format!("tree {}", items(ir, cfg)), paths.join(";"), nontrivial, note.clone());
+        }
+        Ok(t) => {
+            // crate mode: the manifest and rustfmt.toml beside `src/`, whose root module is lib.rs
+            let mut paths: Vec<String> = t.keys().cloned().collect();
+            paths.sort();
+            cs.push(label, format!("crate {}", items(ir, cfg)), paths.join(";"), nontrivial, note.clone());
         }
         _ => cs.push(label, "noop".into(), "noop".into(), nontrivial, note.clone()),
     }
@@ -271,6 +281,29 @@ pub fn cases(seed: u64, tier: Tier) -> Cases {
         for _ in 0..(if tier == Tier::Quick { 2 } else { 8 }) {
             let c = cfgs(&mut rng, pkg);
             one(&mut cs, name, ir, &c, &cli, n);
+            n += 1;
+        }
+    }
+    // a type whose module name is also the name of a sub-package's module (the type's module is renamed)
+    {
+        let ir = serde_json::json!({"version": 1, "errors": [], "services": [], "extensions": {}, "types": [
+            {"type": "object", "object": {"typeName": {"name": "Inner", "package": "com.demo"}, "fields": [{"fieldName": "leaf", "type": {"type": "optional", "optional": {"itemType": {"type": "reference", "reference": {"name": "Leaf", "package": "com.demo.inner"}}}}}]}},
+            {"type": "object", "object": {"typeName": {"name": "Leaf", "package": "com.demo.inner"}, "fields": [{"fieldName": "x", "type": {"type": "primitive", "primitive": "INTEGER"}}]}},
+            {"type": "enum", "enum": {"typeName": {"name": "Leaf", "package": "com.demo"}, "values": [{"value": "A"}]}},
+            {"type": "enum", "enum": {"typeName": {"name": "Twig", "package": "com.demo.leaf.twig"}, "values": [{"value": "A"}]}}]});
+        for (strip, krate) in [(None, None), (Some("com.demo".to_string()), None), (Some("com".to_string()), Some(("my-product".to_string(), "1.2.3".to_string(), None)))] {
+            one(&mut cs, "type and sub-package share a module name", &ir, &Cfg { exhaustive: false, empties: false, strip, krate, bare: false }, &cli, n);
+            n += 1;
+        }
+    }
+    // definitions the generator refuses (a package with an empty component makes a module without a name): a failed
+    // run must be the same failure every time and leave nothing outside the output directory either
+    for pkg in ["com.demo.", "", "com..demo", "."] {
+        let ir = serde_json::json!({"version": 1, "errors": [], "services": [], "extensions": {}, "types": [
+            {"type": "object", "object": {"typeName": {"name": "Thing", "package": pkg}, "fields": [{"fieldName": "a", "type": {"type": "primitive", "primitive": "STRING"}}]}},
+            {"type": "enum", "enum": {"typeName": {"name": "Kind", "package": "com.demo.ok"}, "values": [{"value": "A"}]}}]});
+        for krate in [None, Some(("my-product".to_string(), "1.2.3".to_string(), None))] {
+            one(&mut cs, &format!("refused (a type in package {:?})", pkg), &ir, &Cfg { exhaustive: false, empties: false, strip: None, krate, bare: false }, &cli, n);
             n += 1;
         }
     }
